@@ -235,6 +235,9 @@ pub enum TyperError {
     /// assert_eval failed value equality
     AssertEvalFailed(SourceLocation, ir::Constant, ir::Constant),
 
+    /// A pipeline with the same name was already defined
+    PipelineNameDuplicate(SourceLocation),
+
     /// No stages were declared for a pipeline definition
     PipelineNoEntryPoint(SourceLocation),
 
@@ -1068,6 +1071,11 @@ impl CompileError for TyperExternalError {
                         "expected value '{expected:?}' but received value '{received:?}'"
                     )
                 },
+                *loc,
+                Severity::Error,
+            ),
+            TyperError::PipelineNameDuplicate(loc) => w.write_message(
+                &|f| write!(f, "pipeline declared multiple times"),
                 *loc,
                 Severity::Error,
             ),
